@@ -41,6 +41,23 @@ func fnName(f *ssa.Function) string {
 		name = funcObjName(fo) // reference spelling of a renamed function
 	}
 	if recv := f.Signature.Recv(); recv != nil {
+		// typed atomics are the function forms on the same word: (*atomic.Int32).Load(&x) is
+		// atomic.LoadInt32(&x)
+		if f.Object() != nil && f.Object().Pkg() != nil && f.Object().Pkg().Path() == "sync/atomic" {
+			t := recv.Type()
+			if p, ok := t.(*types.Pointer); ok {
+				t = p.Elem()
+			}
+			if n, ok := t.(*types.Named); ok {
+				switch n.Obj().Name() {
+				case "Int32", "Int64", "Uint32", "Uint64", "Uintptr":
+					switch name {
+					case "Load", "Store", "Add", "Swap", "CompareAndSwap":
+						return "sync/atomic." + name + n.Obj().Name()
+					}
+				}
+			}
+		}
 		return "(" + typeStr(recv.Type()) + ")." + name
 	}
 	if fo, ok := f.Object().(*types.Func); ok {
